@@ -61,3 +61,23 @@ Proof. exact w_rep_eq. Qed.
 Check C04_source_terminal_rep : forall t n, TInv t -> w_rep Om (zabs t) (wabs t) (Z.of_N n) = wres (rep t n).
 Print Assumptions C04_source_terminal_rep.
 
+From Avt Require Import Oracles.C04Wrap Proofs.DumpMargins Proofs.C04Wrap.
+(** "... and marks the row it left as soft-wrapped" (Oracles/C04Wrap.v, Proofs/C04Wrap.v): the clause is TRUE outside the class kf1_C04 and FALSE on all of it - known finding KF-C04-1: when the wrap happens on a bottom margin above the last screen row, Buffer::scroll_up clears the mark Terminal::print has just set *)
+(** outside the finding: the row left carries the mark afterwards - wherever it now is (same view row, one row up inside the region, or the last scrollback line) *)
+Theorem C04_wrap_mark : forall p p' t f t', TInv t -> execute t f = Ok t' -> kf1_C04 (mkVt p t) f = false -> holds_C04_wrapmark (mkVt p t) f (mkVt p' t') = true.
+Proof. exact C04_wrapmark. Qed.
+Check C04_wrap_mark : forall p p' t f t', TInv t -> execute t f = Ok t' -> kf1_C04 (mkVt p t) f = false -> holds_C04_wrapmark (mkVt p t) f (mkVt p' t') = true.
+Print Assumptions C04_wrap_mark.
+
+(** the finding is exact: on the WHOLE class the mark is lost *)
+Theorem C04_known_finding : forall p p' t f t', TInv t -> execute t f = Ok t' -> kf1_C04 (mkVt p t) f = true -> wrapmark_lost (mkVt p t) f (mkVt p' t') = true.
+Proof. exact C04_wrapmark_kf_exact. Qed.
+Check C04_known_finding : forall p p' t f t', TInv t -> execute t f = Ok t' -> kf1_C04 (mkVt p t) f = true -> wrapmark_lost (mkVt p t) f (mkVt p' t') = true.
+Print Assumptions C04_known_finding.
+
+(** the class, in words: a printable character arrives with auto-wrap on and the wrap pending, on the bottom margin, and the bottom margin is above the last row *)
+Theorem C04_known_finding_class : forall p t f, MarginsInv t -> (kf1_C04 (mkVt p t) f = true <-> (exists c, f = Print c) /\ awm t = true /\ pend t = true /\ cur_row t = bot t /\ bot t < rows t - 1).
+Proof. exact kf1_C04_class_reachable. Qed.
+Check C04_known_finding_class : forall p t f, MarginsInv t -> (kf1_C04 (mkVt p t) f = true <-> (exists c, f = Print c) /\ awm t = true /\ pend t = true /\ cur_row t = bot t /\ bot t < rows t - 1).
+Print Assumptions C04_known_finding_class.
+
